@@ -743,7 +743,7 @@ def take_snapshot(g):
     for o in g.objs:
         c = classify(o)
         for t in ([o] if c == 'T' else module_tensors(o) if c == 'Mod' else []):
-            snap[id(t)] = (t.dtype, t.detach().clone(), t._version, t.untyped_storage().data_ptr())
+            snap[id(t)] = (t.dtype, t.detach().clone(), t._version, t.untyped_storage().data_ptr(), t)  # t kept alive: no id reuse
         if c == 'P':
             plains[id(o)] = plain_key(o)
         if c in 'MS':
@@ -763,7 +763,7 @@ def source_changes(g, n0, snap, plains, strict, cp):
             if id(t) not in snap:
                 msgs.append('source module got a new tensor object')
                 continue
-            dt, val, ver, ptr = snap[id(t)]
+            dt, val, ver, ptr, _ = snap[id(t)]
             if t.dtype != dt or t._version != ver or t.untyped_storage().data_ptr() != ptr or not torch.equal(t.detach(), val):
                 msgs.append(f'source tensor changed: {dt}->{t.dtype}, version {ver}->{t._version}' + (' (inside a module field)' if c == 'Mod' else ''))
         now = plain_key(o) if c == 'P' else [id(v) for _, v in fields_of(o)] if c in 'MS' else [id(t) for t in module_tensors(o)] if c == 'Mod' else None
@@ -772,10 +772,15 @@ def source_changes(g, n0, snap, plains, strict, cp):
     return msgs
 
 
+def _norm(x):
+    import json
+    return json.loads(json.dumps(x))
+
+
 def impl(case):
     strict = case['kind'].startswith('kf_')
     root, g, rid, heap, ns0 = abstract(case)
-    if case.get('heap') is not None and vlib.jsonable(heap) != case['heap']:
+    if case.get('heap') is not None and _norm(heap) != _norm(case['heap']):
         return {'harness_error': 'source graph is not reproducible from the seed'}
     snap, plains = take_snapshot(g)
     try:
@@ -867,7 +872,7 @@ def oracle(case, o):
 def finish(case):
     """attach the abstract source graph (replayable: it is recomputed from the seed and compared)"""
     _, g, rid, heap, ns0 = abstract(case)
-    case['heap'] = vlib.jsonable(heap)
+    case['heap'] = _norm(heap)
     case['ns0'] = ns0
     case['root'] = rid
     return case
